@@ -1,6 +1,7 @@
 """Per-shard result accumulator (serialised to JSON for the parent runner)."""
 from __future__ import annotations
 
+import gc
 import hashlib
 import json
 import time
@@ -77,6 +78,11 @@ class Budget:
         if time.time() - self.t0 > self.seconds:
             return False
         self.n += 1
+        if self.n % 16 == 0:
+            # every case builds hundreds of schema classes (cyclic garbage); the automatic full collection
+            # becomes rarer as the heap grows, uncollected classes then slow down every abc subclass check
+            # (python-jsonschema-objects) and memory climbs to gigabytes in long runs
+            gc.collect()
         return True
 
     def timed_out(self):
